@@ -21,7 +21,7 @@ ASSUMPTIONS = [
     "MAP_SHARED mappings of one object are coherent (a store through one mapping is what a load through another returns)",
     "munmap works on whole pages: mapping lengths are compared rounded up to the page size (%d)" % PAGE,
     "the 52-bit truncated SHA-1 platform keys of the names in use do not collide (keys are abstract in the model)",
-    "only the POSIX IPC variants are built (and modelled) on this platform; psemaphore-sysv.c / pshm-sysv.c are not modelled: C06/C07 run them through an API-level differential against the spec (tools/props/ipc_sysv.py)",
+    "only the POSIX IPC variants are built (and modelled) on this platform; psemaphore-sysv.c / pshm-sysv.c have their own model (PV.Model.IPCSysV, theorems PV.Props.C06sysv / C07sysv), tied by harness/ipc_sysv.c (tools/props/ipc_sysv.py)",
     "sem_wait blocking is a scheduler matter: scripted histories acquire only when the model says a unit is available",
     "allocation never fails in these checks (C18 covers failure)",
 ]
